@@ -92,7 +92,14 @@ fn window_hours(m: &Model, w: &bemodel::Window, detail_hours: &[usize]) -> Optio
         .filter(|o| o.id != wall.id && o.linked_to_id.map_or(true, |l| l == w.id))
         .count();
     let n_reveals = occ.iter().filter(|o| o.linked_to_id == Some(w.id)).count();
-    Some(json!({"window": w.id.to_string(), "n_candidates": n_candidates, "n_reveals": n_reveals, "setback": w.geometry.setback as f64,
+    let placement = match (wall.geometry.position, w.geometry.position, wall.geometry.polygon.first(), wall.geometry.polygon.get(1)) {
+        (Some(p), Some(wp), Some(v0), Some(v1)) if wall.geometry.polygon.len() > 2 => json!({
+            "pos": [p.x, p.y, p.z], "azimuth": wall.geometry.azimuth, "tilt": wall.geometry.tilt, "v0": [v0.x, v0.y], "v1": [v1.x, v1.y],
+            "x": wp.x, "y": wp.y, "w": w.geometry.width, "h": w.geometry.height, "setback": w.geometry.setback,
+            "origins": origins.iter().map(|p| json!([p.x, p.y, p.z])).collect::<Vec<_>>()}),
+        _ => Value::Null,
+    };
+    Some(json!({"window": w.id.to_string(), "n_candidates": n_candidates, "n_reveals": n_reveals, "setback": w.geometry.setback as f64, "placement": placement,
                 "wall_has_position": wall.geometry.position.is_some(),
                 "window_has_position": w.geometry.position.is_some(), "n_origins": origins.len(), "hours": hours}))
 }
